@@ -28,7 +28,7 @@ class ScriptedServer(refms.RefServer):
 # ---------------------------------------------------------------------------------------------
 # reply grammar (bounded exhaustive)
 
-RCODES = [None, b"QUOTA", b"QUOTA/MAXSIZE", b'TAG "x"', b"WARNINGS", b'TAG "{7}"', b"NONEXISTENT", b"ACTIVE"]
+RCODES = [None, b"QUOTA", b"QUOTA/MAXSIZE", b'TAG "x"', b"WARNINGS", b'TAG "{7}"', b"NONEXISTENT", b"ACTIVE", b'TAG "say \\"hi"', b'TAG "a)b"']
 TEXTS = [None, ("q", b"x y"), ("q", b'a"b\\c'), ("q", b""), ("l", b"lit text"), ("l", b"two\r\nlines"), ("q", b"\xc3\xa9t\xc3\xa9"),
          ("q", b"variable ${1} used, {2} of 5"), ("l", b"{3}"),
          ("l", b"ends in a line break\r\n"), ("l", b" padded \t"), ("q", b" lead and trail ")]  # text is data: nothing may be trimmed from it
@@ -54,7 +54,7 @@ def status_variants(codes=(b"OK", b"NO", b"BYE"), rcodes=RCODES, texts=TEXTS):
 
 LOOKALIKE_LINES = [b"keep;", b"OK", b'NO "x"', b"BYE", b"{5}", b'"x" ACTIVE', b"", b"\xc3\xa9", b'OK "Done."', b"{3+}",
                    b"a\xe2\x80\xa8b", b"a\xc2\x85b", b"a\x0bb\x0cc\x1cd",
-                   b"\xef\xbb\xbfkeep;", b"keep; \t", b" "]  # ... and lines ending in / made of blanks  # U+2028, U+0085, VT/FF/FS: not line ends for the protocol
+                   b"\xef\xbb\xbfkeep;", b"keep; \t", b" ", b"# see c:\\"]  # ... and lines ending in / made of blanks  # U+2028, U+0085, VT/FF/FS: not line ends for the protocol
 
 
 def bodies(max_lines, lines=LOOKALIKE_LINES, eols=(b"\r\n", b"\n"), finals=(True, False)):
